@@ -221,16 +221,21 @@ CmdVerdict(cmd, orig, redact) ==
 Alphabet == {97, cSQ, cDQ, cBS, cDOLLAR, cBT, cSP, cNL, cAT, cSEMI, cCOLON, cAMP, cPCT}
 Strs(n) == UNION {[1..k -> Alphabet] : k \in 0..n}
 BaseSlots == {"header", "query", "path", "body"}                \* adversarial string in one place
-Slots == BaseSlots \cup {"cookie", "json", "form", "auth"}      \* cookie value, JSON string body, urlencoded form field, Authorization value
+Slots == BaseSlots \cup {"cookie", "json", "form", "auth", "multipart"}      \* cookie value, JSON string body, urlencoded form field, Authorization value, text field of a multipart/form-data body
 (* payloads that are empty or minimal for their media type, for every method that carries a body: the Content-Type header   *)
 (* of the original request must be reproduced although there may be nothing to pass to -d                                    *)
 EmptySlots == {"form-empty", "form-min", "text-empty", "json-object", "json-array", "json-null"}   \* {} / {k: a} as form, "" as text, {} [] null as JSON
 BodyMethods == {"POST", "PUT", "PATCH"}
+(* the command the ENGINE attaches to a failure (code sample built from the recorder), for a failure on the case's own request   *)
+(* and for failures on requests a check derived from it (ignored_auth probes: credential header removed / overridden); the      *)
+(* string is the value of a configured non-credential header that every one of these requests carries                            *)
+EngineSlots == {"engine-own", "engine-removed", "engine-overridden"}
 Elements(n, lm) == {[slot |-> sl, s |-> s, m |-> "-"] : sl \in Slots, s \in Strs(n)}
                      \cup {[slot |-> sl, s |-> s, m |-> "-"] : sl \in {"header", "body"}, s \in [1..lm -> Alphabet]}
                      \cup {[slot |-> sl, s |-> <<>>, m |-> mm] : sl \in EmptySlots, mm \in BodyMethods}
+                     \cup {[slot |-> sl, s |-> s, m |-> "-"] : sl \in EngineSlots, s \in Strs(1)}
 (* field values: no CR / LF, no leading or trailing blanks (RFC 7230 3.2); path values are non-empty *)
-InFragment(e) == CASE e.slot \in {"header", "cookie", "auth"} -> /\ \A i \in 1..Len(e.s) : e.s[i] # cNL
+InFragment(e) == CASE e.slot \in {"header", "cookie", "auth"} \cup EngineSlots -> /\ \A i \in 1..Len(e.s) : e.s[i] # cNL
                                                                /\ (e.s = <<>> \/ (~IsSpace(e.s[1]) /\ ~IsSpace(e.s[Len(e.s)])))
                    [] e.slot = "path" -> e.s # <<>>
                    [] OTHER -> TRUE
@@ -276,7 +281,7 @@ Next == UNCHANGED el
 Spec == Init /\ [][Next]_el
 
 (* design invariants *)
-TypeOK == el.slot \in Slots \cup EmptySlots
+TypeOK == el.slot \in Slots \cup EmptySlots \cup EngineSlots
 ModelledSlots == BaseSlots \cup EmptySlots
 (* "curl -d sends the form Content-Type by itself": leaving that header out of the command is faithful exactly when there is   *)
 (* data to pass to -d - with an empty payload nothing re-creates it                                                          *)
